@@ -1,5 +1,398 @@
 package main
 
-// tryReplay instantiates the replay template of the failed obligation (if any) with model values and runs it
-// against the real code. Returns true iff the real code reproduces the violation.
-func tryReplay(prop, dir string, o *Obligation) bool { return false }
+import (
+	"context"
+	"encoding/json"
+	"fmt"
+	"go/types"
+	"math"
+	"os"
+	"os/exec"
+	"path/filepath"
+	"sort"
+	"strconv"
+	"strings"
+	"time"
+
+	"golang.org/x/tools/go/ssa"
+)
+
+// Counterexample replay (DESIGN §6, §13.2).
+//
+// For every function under contract the encoder records a description of its INPUTS in the entry state: for each
+// parameter (and receiver) a list of (path, SMT term, kind) - scalars, the first few elements of slices, the fields
+// of pointed-to structs, two levels deep.  When an obligation fails with a model, the solver is asked for the values
+// of exactly those terms (get-value), the values are written as inputs.json, and - if /verif/replay_templates has a
+// template for the function - an in-package Go test is instantiated with them and run against the REAL code through
+// `go test -overlay`.  The template rebuilds the inputs, calls the real function and checks the property's statement
+// with ordinary Go code; it prints REPRODUCED when the real code misbehaves.  Only then does the VIOLATION line lose
+// its `no-failing-input-found` suffix.
+
+type inputTerm struct {
+	Path string `json:"path"`
+	Term string `json:"-"`
+	Kind string `json:"kind"` // int bool str f64
+}
+
+const replayElems = 6
+
+// describeInputs is called at function entry (parameters are bound, st is the entry state).
+func (f *Frame) describeInputs(st *State) {
+	e := f.e
+	defer func() {
+		if r := recover(); r != nil {
+			if _, ok := r.(encErr); ok {
+				return // something outside the subset: inputs stay partial
+			}
+			panic(r)
+		}
+	}()
+	for _, p := range f.fn.Params {
+		if v := f.vals[p]; v != nil {
+			e.describe(st, p.Name(), v.T, p.Type(), 0)
+		}
+	}
+	for _, fv := range f.fn.FreeVars {
+		if v := f.vals[fv]; v != nil {
+			if pt, ok := fv.Type().Underlying().(*types.Pointer); ok {
+				cell := e.load(st, e.ptrLoc(v))
+				e.describe(st, fv.Name(), cell.T, pt.Elem(), 0)
+			}
+		}
+	}
+}
+
+func (e *Encoder) addInput(path, term, kind string) {
+	if len(e.inputs) < 400 {
+		e.inputs = append(e.inputs, inputTerm{path, term, kind})
+	}
+}
+
+func (e *Encoder) describe(st *State, path, t string, ty types.Type, depth int) {
+	switch u := ty.Underlying().(type) {
+	case *types.Basic:
+		switch {
+		case u.Info()&types.IsBoolean != 0:
+			e.addInput(path, t, "bool")
+		case u.Info()&types.IsInteger != 0:
+			e.addInput(path, t, "int")
+		case u.Info()&types.IsFloat != 0:
+			e.addInput(path, t, "f64")
+		case u.Info()&types.IsString != 0:
+			e.addInput(path, t, "str")
+		}
+	case *types.Pointer:
+		e.addInput(path+".isnil", eq(t, "0"), "bool")
+		if depth >= 2 {
+			return
+		}
+		sT, s := derefStruct(ty)
+		if s == nil || isOpaqueStruct(u.Elem()) || isTimeTime(u.Elem()) {
+			return
+		}
+		l := &Loc{Comp: "", Idx: []string{t}, Type: sT, Root: sT}
+		for i := 0; i < s.NumFields(); i++ {
+			fl := s.Field(i)
+			if _, isStruct := fl.Type().Underlying().(*types.Struct); isStruct && (isOpaqueStruct(fl.Type()) || strings.Contains(fl.Type().String(), "sync.")) {
+				continue
+			}
+			v := e.load(st, e.fieldLoc(l, fl))
+			e.describe(st, path+"."+fl.Name(), v.T, fl.Type(), depth+1)
+		}
+	case *types.Struct:
+		if isOpaqueStruct(ty) || isTimeTime(ty) {
+			return
+		}
+		ss := e.sorts.structSortOf(ty, u)
+		for i := 0; i < u.NumFields(); i++ {
+			fl := u.Field(i)
+			if _, isStruct := fl.Type().Underlying().(*types.Struct); isStruct && (isOpaqueStruct(fl.Type()) || strings.Contains(fl.Type().String(), "sync.")) {
+				continue
+			}
+			e.describe(st, path+"."+fl.Name(), e.fieldOf(ss, i, t), fl.Type(), depth)
+		}
+	case *types.Slice:
+		e.addInput(path+".len", app("slen", t), "int")
+		if depth >= 3 {
+			return
+		}
+		es := e.sorts.sortOf(u.Elem())
+		E := e.comp(st, e.elemComp(u.Elem()), arr2Sort(es))
+		for k := 0; k < replayElems; k++ {
+			el := sel(sel(E, app("sarr", t)), app("idx", t, fmt.Sprint(k)))
+			e.describe(st, fmt.Sprintf("%s[%d]", path, k), el, u.Elem(), depth+1)
+		}
+	case *types.Interface:
+		// dynamic type tag and payload by kind
+		e.addInput(path+".isnil", eq(t, "ANil"), "bool")
+		e.addInput(path+".tag", app("tagof", t), "int")
+		e.addInput(path+".isInt", app("(_ is AInt)", t), "bool")
+		e.addInput(path+".isF64", app("(_ is AF64)", t), "bool")
+		e.addInput(path+".isStr", app("(_ is AStr)", t), "bool")
+		e.addInput(path+".isBool", app("(_ is ABool)", t), "bool")
+		e.addInput(path+".int", ite(app("(_ is AInt)", t), app("aint", t), "0"), "int")
+		e.addInput(path+".f64", ite(app("(_ is AF64)", t), app("af64", t), "(_ +zero 11 53)"), "f64")
+		e.addInput(path+".str", ite(app("(_ is AStr)", t), app("astr", t), "snil"), "str")
+		e.addInput(path+".bool", ite(app("(_ is ABool)", t), app("abool", t), "false"), "bool")
+	}
+}
+
+// ---- model values -> JSON ----
+
+func strValue(n *tsx) (string, bool) {
+	var bs []byte
+	for {
+		if !n.list {
+			if n.atom == "snil" {
+				return string(bs), true
+			}
+			return "", false
+		}
+		if len(n.kids) != 3 || n.kids[0].atom != "scons" {
+			return "", false
+		}
+		c, ok := intValue(n.kids[1])
+		if !ok {
+			return "", false
+		}
+		bs = append(bs, byte(c))
+		if len(bs) > 4096 {
+			return string(bs), true
+		}
+		n = n.kids[2]
+	}
+}
+
+func intValue(n *tsx) (int64, bool) {
+	if !n.list {
+		v, err := strconv.ParseInt(n.atom, 10, 64)
+		return v, err == nil
+	}
+	if len(n.kids) == 2 && n.kids[0].atom == "-" {
+		v, ok := intValue(n.kids[1])
+		return -v, ok
+	}
+	return 0, false
+}
+
+func f64Value(n *tsx) (uint64, bool) {
+	s := n.String()
+	switch s {
+	case "(_ +zero 11 53)":
+		return 0, true
+	case "(_ -zero 11 53)":
+		return 1 << 63, true
+	case "(_ +oo 11 53)":
+		return math.Float64bits(math.Inf(1)), true
+	case "(_ -oo 11 53)":
+		return math.Float64bits(math.Inf(-1)), true
+	case "(_ NaN 11 53)":
+		return math.Float64bits(math.NaN()), true
+	}
+	if n.list && len(n.kids) == 4 && n.kids[0].atom == "fp" {
+		bits := func(a string) (uint64, int, bool) {
+			switch {
+			case strings.HasPrefix(a, "#b"):
+				v, err := strconv.ParseUint(a[2:], 2, 64)
+				return v, len(a) - 2, err == nil
+			case strings.HasPrefix(a, "#x"):
+				v, err := strconv.ParseUint(a[2:], 16, 64)
+				return v, 4 * (len(a) - 2), err == nil
+			}
+			return 0, 0, false
+		}
+		sg, _, ok1 := bits(n.kids[1].atom)
+		ex, _, ok2 := bits(n.kids[2].atom)
+		mt, _, ok3 := bits(n.kids[3].atom)
+		if ok1 && ok2 && ok3 {
+			return sg<<63 | ex<<52 | mt, true
+		}
+	}
+	return 0, false
+}
+
+// modelInputs asks z3 for the values of the recorded input terms in a model of the failed obligation.
+func modelInputs(o *Obligation, opts solveOpts) (map[string]interface{}, string) {
+	e := o.enc
+	if e == nil || len(e.inputs) == 0 {
+		return nil, ""
+	}
+	var terms []string
+	for _, in := range e.inputs {
+		terms = append(terms, in.Term)
+	}
+	q := o.query()
+	q = strings.Replace(q, "(check-sat)\n", "(check-sat)\n(get-value ("+strings.Join(terms, "\n ")+"))\n", 1)
+	file := filepath.Join(opts.outDir, fileSafe(o.Name)+".inputs.smt2")
+	os.WriteFile(file, []byte(q), 0o644)
+	var out string
+	for _, sp := range []solverSpec{solvers[0], solvers[2]} {
+		a := runSolver(context.Background(), sp, file, maxInt(opts.timeoutS, 10), opts.seed)
+		if a.answer == "sat" {
+			out = a.output
+			break
+		}
+	}
+	if out == "" {
+		return nil, ""
+	}
+	i := strings.Index(out, "\n")
+	forms := parseTsx(out[i+1:])
+	if len(forms) == 0 || !forms[0].list {
+		return nil, out
+	}
+	vals := map[string]interface{}{}
+	pairs := forms[0].kids
+	for k, in := range e.inputs {
+		if k >= len(pairs) || !pairs[k].list || len(pairs[k].kids) != 2 {
+			break
+		}
+		v := pairs[k].kids[1]
+		switch in.Kind {
+		case "int":
+			if x, ok := intValue(v); ok {
+				vals[in.Path] = x
+			}
+		case "bool":
+			vals[in.Path] = v.String() == "true"
+		case "str":
+			if s, ok := strValue(v); ok {
+				vals[in.Path] = []byte(s) // JSON: base64, exact bytes
+			}
+		case "f64":
+			if b, ok := f64Value(v); ok {
+				vals[in.Path] = fmt.Sprintf("0x%016x", b)
+			}
+		}
+	}
+	return vals, out
+}
+
+func templateFor(fn string) string {
+	base := fn
+	if i := strings.Index(base, "@"); i >= 0 {
+		base = base[:i] // opcode / node cases share their function's template
+	}
+	p := filepath.Join(verifDir, "replay_templates", fileSafe(base)+".go.tmpl")
+	if _, err := os.Stat(p); err == nil {
+		return p
+	}
+	return ""
+}
+
+// tryReplay instantiates the replay template of the failed obligation's function with the model's input values and
+// runs it against the real code. Returns true iff the real code reproduces a violation of the property's statement.
+func tryReplay(prop, dir string, o *Obligation, opts solveOpts) bool {
+	if o == nil {
+		return false
+	}
+	var vals map[string]interface{}
+	var raw string
+	if o.Status == "failed" && o.enc != nil {
+		vals, raw = modelInputs(o, opts)
+	}
+	hasModel := vals != nil
+	if !hasModel {
+		if templateFor(o.Func) == "" {
+			return false
+		}
+		// no model (unknown / timeout): the template can still run its bounded search of the real function
+		vals = map[string]interface{}{}
+	}
+	data, _ := json.MarshalIndent(map[string]interface{}{"function": o.Func, "obligation": o.Name, "has_model": hasModel, "inputs": vals}, "", " ")
+	os.WriteFile(filepath.Join(dir, "inputs.json"), data, 0o644)
+	_ = raw
+	tp := templateFor(o.Func)
+	appendReport := func(s string) {
+		f, err := os.OpenFile(filepath.Join(dir, "REPORT.txt"), os.O_APPEND|os.O_WRONLY, 0o644)
+		if err == nil {
+			f.WriteString(s)
+			f.Close()
+		}
+	}
+	if tp == "" {
+		appendReport("\nmodel values of the function's inputs: inputs.json; no replay template for " + o.Func + " (the model was not run against the real code)\n")
+		return false
+	}
+	tmpl, err := os.ReadFile(tp)
+	if err != nil {
+		return false
+	}
+	pkgDir := ""
+	for _, l := range strings.Split(string(tmpl), "\n") {
+		if strings.HasPrefix(l, "// pkg: ") {
+			pkgDir = strings.TrimSpace(strings.TrimPrefix(l, "// pkg: "))
+			break
+		}
+	}
+	if pkgDir == "" {
+		return false
+	}
+	src := strings.Replace(string(tmpl), "/*INPUTS*/", "`"+strings.ReplaceAll(string(data), "`", "'")+"`", 1)
+	testFile := filepath.Join(dir, "replay_test.go")
+	os.WriteFile(testFile, []byte(src), 0o644)
+	ok, out := runReplay(dir, pkgDir)
+	appendReport("\nreplay against the real code (replay_test.go, go test -overlay):\n" + out + "\n")
+	return ok
+}
+
+func runReplay(dir, pkgDir string) (bool, string) {
+	root := repoRoot()
+	ov := map[string]map[string]string{"Replace": {filepath.Join(root, pkgDir, "zz_govc_replay_test.go"): filepath.Join(dir, "replay_test.go")}}
+	ovData, _ := json.Marshal(ov)
+	ovFile := filepath.Join(dir, "overlay.json")
+	os.WriteFile(ovFile, ovData, 0o644)
+	os.WriteFile(filepath.Join(dir, "replay_pkg.txt"), []byte(pkgDir), 0o644)
+	ctx, cancel := context.WithTimeout(context.Background(), 180*time.Second)
+	defer cancel()
+	cmd := exec.CommandContext(ctx, "go", "test", "-overlay", ovFile, "-vet=off", "-count=1", "-timeout", "60s", "-run", "^TestGovcReplay$", "./"+pkgDir+"/")
+	cmd.Dir = root
+	cmd.Env = append(os.Environ(), "GOFLAGS=-mod=mod", "GOPROXY=off", "GOSUMDB=off", "GOTOOLCHAIN=local")
+	b, _ := cmd.CombinedOutput()
+	out := string(b)
+	if len(out) > 4000 {
+		out = out[:4000]
+	}
+	os.WriteFile(filepath.Join(dir, "replay_output.txt"), b, 0o644)
+	return strings.Contains(out, "REPRODUCED"), out
+}
+
+// cmdReplay: `govc replay <dir>` shows what a check wrote for a failed obligation and, when a replay test was
+// generated, runs it again against the current tree.
+func cmdReplay(args []string) int {
+	if len(args) != 1 {
+		fmt.Fprintln(os.Stderr, "usage: check --replay <replay directory>")
+		return 2
+	}
+	dir := args[0]
+	rep, err := os.ReadFile(filepath.Join(dir, "REPORT.txt"))
+	if err != nil {
+		fmt.Fprintln(os.Stderr, "no REPORT.txt in", dir)
+		return 2
+	}
+	fmt.Print(string(rep))
+	var names []string
+	if ents, err := os.ReadDir(dir); err == nil {
+		for _, en := range ents {
+			names = append(names, en.Name())
+		}
+	}
+	sort.Strings(names)
+	fmt.Println("\nfiles:", strings.Join(names, " "))
+	pk, err := os.ReadFile(filepath.Join(dir, "replay_pkg.txt"))
+	if err != nil {
+		fmt.Println("no replay test was generated for this obligation (no model, or no template for the function): no-failing-input-found")
+		return 1
+	}
+	ok, out := runReplay(dir, strings.TrimSpace(string(pk)))
+	fmt.Println("re-running replay_test.go against the current tree:")
+	fmt.Println(out)
+	if ok {
+		fmt.Println("REPRODUCED on the real code")
+	} else {
+		fmt.Println("not reproduced on the current tree")
+	}
+	return 1
+}
+
+var _ = ssa.Value(nil)
